@@ -69,7 +69,8 @@ def main(argv: list[str]) -> int:
     vseed = int(os.environ.get("VERIF_SEED", "0") or 0)
     bad = 0
     for p in props:
-        bad += determinism(p, n, vseed + 7919)
+        # C17 runs are ~100x more expensive than the others: fewer seeds in light mode
+        bad += determinism(p, (12 if p == "C17" and mode == "light" else n), vseed + 7919)
     if bad:
         print(f"selftest: {bad} problems")
         return 2
